@@ -152,8 +152,9 @@ def run_inprocess(args, cwd):
     return code, out.getvalue(), err.getvalue(), opened
 
 
-def run_subprocess(args, cwd, repo="/repo"):
-    env = dict(os.environ, PYTHONPATH=repo, PYTHONDONTWRITEBYTECODE="1")
+def run_subprocess(args, cwd, repo=None):
+    from .core import REPO
+    env = dict(os.environ, PYTHONPATH=repo or REPO, PYTHONDONTWRITEBYTECODE="1")
     p = subprocess.run(["/venv/bin/python", "-m", "btc_hd_wallet"] + list(args), cwd=cwd, env=env, stdout=subprocess.PIPE,
                        stderr=subprocess.PIPE, timeout=300)
     return p.returncode, p.stdout.decode("utf-8", "replace"), p.stderr.decode("utf-8", "replace"), []
